@@ -54,6 +54,37 @@ main(int argc, char** argv)
       else puts("new=NULL");
       continue;
     }
+    if (!strcmp(tok[0], "newa") && n == 3) {
+      // newa <refused request indexes or -> <size>: a second ring is created and released under that refusal pattern;
+      // result and the allocator's event log (the header request is printed as mH: its size is the platform's)
+      const unsigned long s = strtoul(tok[2], NULL, 10);
+      if (s > 65536UL) { puts("bad-op"); continue; }   // small sizes only: the buffer is really allocated
+      static VAlloc vb;
+      v_alloc_init(&vb);
+      if (strcmp(tok[1], "-")) {
+        for (const char* p = tok[1]; *p;) {
+          const unsigned long k = strtoul(p, (char**)&p, 10);
+          if (k < 64) vb.fail_bits |= 1ULL << k;
+          if (*p == ',') ++p;
+        }
+      }
+      ZixRing* const r = zix_ring_new(&vb.base, (uint32_t)s);
+      const long after_new = v_alloc_outstanding(&vb);
+      zix_ring_free(r);
+      printf("new=%s", r ? "RING" : "NULL");
+      if (after_new != (r ? 2 : 0) || v_alloc_outstanding(&vb) || vb.n_errors) printf(" SPEC-FAIL:ring-lifecycle-%ld-%ld-%ld", after_new, v_alloc_outstanding(&vb), vb.n_errors);
+      // the log, with the header's size written as H
+      char hdr[32];
+      snprintf(hdr, sizeof(hdr), "m%zu=", sizeof(ZixRing));
+      printf(" | ev[");
+      for (const char* p = vb.log ? vb.log : ""; *p;) {
+        if ((p == vb.log || p[-1] == ' ') && !strncmp(p, hdr, strlen(hdr))) { fputs("mH=", stdout); p += strlen(hdr); }
+        else fputc(*p++, stdout);
+      }
+      puts("]");
+      vb.log_len = 0; if (vb.log) vb.log[0] = 0;
+      continue;
+    }
     if (!ring) {
       puts("bad-op");
       continue;
